@@ -43,7 +43,7 @@ type propInfo struct {
 // per-property settings (level must match MANIFEST.json)
 var props = map[string]propInfo{
 	"C01": {Level: "fault_enumeration", QuickS: 60, ThoroughS: 600},
-	"C02": {Level: "fault_enumeration", QuickS: 60, ThoroughS: 600},
+	"C02": {Level: "fault_enumeration", QuickS: 90, ThoroughS: 600},
 	"C03": {Level: "fault_enumeration", QuickS: 60, ThoroughS: 600},
 	"C04": {Level: "model_checking", QuickS: 60, ThoroughS: 600},
 	"C05": {Level: "exploration", QuickS: 60, ThoroughS: 600},
